@@ -77,6 +77,70 @@ func SignCompact(alg string, key interface{}, payload []byte, rnd io.Reader, ext
 	return input + "." + B64(sig), nil
 }
 
+// SignJSON produces a flattened-JSON JWS whose header members are split between the protected header (prot, may be nil: then
+// the object has no "protected" member and the signing input starts with the empty string, RFC 7515 5.1/7.2.1) and the
+// unprotected "header" member (unprot, may be nil).  "alg" is put where algInProtected says.
+func SignJSON(alg string, key interface{}, payload []byte, rnd io.Reader, prot, unprot map[string]interface{}, algInProtected bool) (string, error) {
+	p := map[string]interface{}{}
+	for k, v := range prot {
+		p[k] = v
+	}
+	u := map[string]interface{}{}
+	for k, v := range unprot {
+		u[k] = v
+	}
+	if algInProtected {
+		p["alg"] = alg
+	} else {
+		u["alg"] = alg
+	}
+	protB64 := ""
+	if len(p) > 0 {
+		hb, _ := json.Marshal(p)
+		protB64 = B64(hb)
+	}
+	// sign protB64 "." b64(payload) with the primitive of alg (SignCompact's core, on an explicit signing input)
+	input := protB64 + "." + B64(payload)
+	ch, newH := hashOf(alg[2:])
+	h := newH()
+	h.Write([]byte(input))
+	digest := h.Sum(nil)
+	var sig []byte
+	var err error
+	switch alg[:2] {
+	case "HS":
+		mac := hmac.New(newH, key.([]byte))
+		mac.Write([]byte(input))
+		sig = mac.Sum(nil)
+	case "RS":
+		sig, err = rsa.SignPKCS1v15(rnd, key.(*rsa.PrivateKey), ch, digest)
+	case "PS":
+		sig, err = rsa.SignPSS(rnd, key.(*rsa.PrivateKey), ch, digest, &rsa.PSSOptions{SaltLength: rsa.PSSSaltLengthEqualsHash})
+	case "ES":
+		k := key.(*ecdsa.PrivateKey)
+		var r, s2 *big.Int
+		r, s2, err = ecdsa.Sign(rnd, k, digest)
+		if err == nil {
+			n := (k.Curve.Params().BitSize + 7) / 8
+			sig = append(fixed(r, n), fixed(s2, n)...)
+		}
+	default:
+		err = fmt.Errorf("unsupported alg %s", alg)
+	}
+	if err != nil {
+		return "", err
+	}
+	obj := map[string]interface{}{"payload": B64(payload), "signature": B64(sig)}
+	if protB64 != "" {
+		obj["protected"] = protB64
+	}
+	if len(u) > 0 {
+		obj["header"] = u
+	}
+	b, _ := json.Marshal(obj)
+	return string(b), nil
+}
+
 // KeyWrap is RFC 3394 AES key wrap with the default IV.
 func KeyWrap(kek, cek []byte) ([]byte, error) {
 	if len(cek)%8 != 0 || len(cek) < 16 {
